@@ -119,6 +119,22 @@ class Pair:
                     sa.start_dpd_at = sim.clock - 1
                     break
             sent = ep.tick()
+        elif kind == 'force_spi':
+            # the next os.urandom(4) at endpoint action[1] returns the inbound (action[3] = 0) or outbound SPI of its
+            # k-th tracked CHILD_SA: an SPI collision (the daemon never checks uniqueness)
+            ep = self.ep(action[1])
+            children = [c for sa in ep.controller.ike_sas for c in sa.child_sas]
+            if children:
+                ch = children[action[2] % len(children)]
+                sim.forced_urandom.append((action[1], bytes(ch.outbound_spi if action[3] else ch.inbound_spi)))
+        elif kind == 'force_ike_spi':
+            # the next os.urandom(8) at endpoint action[1] returns the local SPI of the first IKE_SA of endpoint action[2]
+            src = self.ep(action[2])
+            if src.controller.ike_sas:
+                sim.forced_urandom.append((action[1], bytes(src.controller.ike_sas[0].my_spi)))
+        elif kind == 'kfail_newsa':
+            ep = self.ep(action[1])
+            ep.kernel.fail_newsa.add(ep.kernel.n_newsa + action[2])
         elif kind == 'kfail':
             ep = self.ep(action[1])
             ep.kernel.fail.add(ep.kernel.n + action[2])
@@ -174,6 +190,14 @@ def scripted(name):
         'lost_everything': HANDSHAKE + [['expire', 'A', 0, 0], ['drop', 0], ['tick', 3], ['drop', 0], ['tick', 5],
                                         ['drop', 0], ['tick', 7], ['drop', 0], ['tick', 9], ['tick', 9]],
         'retransmit_request': HANDSHAKE + [['expire', 'A', 0, 0], ['drop', 0], ['tick', 3], D, D, D, D],
+        'spi_collision_out': HANDSHAKE + [['force_spi', 'A', 0, 0], ['acquire', 'A', 81], D, D, D, D],
+        'spi_collision_in': HANDSHAKE + [['force_spi', 'B', 0, 0], ['acquire', 'A', 81], D, D, D, D],
+        'spi_collision_rekey': HANDSHAKE + [['acquire', 'A', 81], D, D, ['force_spi', 'A', 1, 0], ['expire', 'A', 0, 0],
+                                            D, D, D, D],
+        'postponed_rekey_then_child': HANDSHAKE + [['rekey_ike', 'A'], ['rekey_ike', 'B'], D, D, D, D,
+                                                   ['acquire', 'A', 81], D, D, D, D, ['expire', 'B', 0, 0], D, D, D, D, D, D],
+        'ike_spi_reuse': HANDSHAKE + [['force_ike_spi', 'B', 'A'], ['rekey_ike', 'A'], D, D, D, D,
+                                      ['acquire', 'A', 82], D, D, ['expire', 'B', 0, 1], D, D],
         'replay_requests': HANDSHAKE + [['replay', 2], ['replay', 0], ['expire', 'A', 0, 0], D, ['replay', 4], D,
                                         ['replay', 4], ['replay', 5], D, D],
     }
@@ -185,6 +209,9 @@ SCRIPTED = ['handshake', 'new_child', 'new_child_from_responder', 'rekey_child',
             'dpd', 'rekey_ike_then_child', 'simultaneous_rekey_child', 'simultaneous_rekey_ike',
             'simultaneous_delete_child', 'rekey_ike_vs_delete_child', 'lost_everything', 'retransmit_request',
             'replay_requests']
+# scripted histories that need something special (forced SPI collisions, a postponed IKE_SA rekey): used by the
+# handler correspondence and by individual oracles, not by the generic plans
+SPECIAL = ['spi_collision_out', 'spi_collision_in', 'spi_collision_rekey', 'postponed_rekey_then_child', 'ike_spi_reuse']
 
 
 def random_walk(rng, n, handshake=True, weights=None):
